@@ -12,11 +12,11 @@ Recs == ndJsonDeserialize("recs.ndjson")
 SeqRange(s) == {s[i] : i \in DOMAIN s}
 
 \* ---------------- C16 ----------------
-IsWS(b) == b \in {9, 10, 11, 12, 13, 32}                      \* the white space the generated inputs contain
+IsWS(b) == b \in {9, 10, 11, 12, 13, 32}                      \* ASCII white space; r.wsx lists the bytes of non-ASCII white-space runes
 NLBefore(in, p) == Cardinality({i \in 1..p : in[i] = 10})     \* newlines among the first p bytes
 NLines(in) == 1 + NLBefore(in, Len(in))
 Slice(in, p, n) == SubSeq(in, p + 1, p + n)
-AllWS(in, lo, hi) == \A i \in (lo + 1)..hi : IsWS(in[i])       \* bytes at offsets lo .. hi-1
+AllWS(r, lo, hi) == \A i \in (lo + 1)..hi : IsWS(r.in[i]) \/ i \in SeqRange(r.wsx)     \* bytes at offsets lo .. hi-1
 
 Tiles_C16(r) ==
   LET T == r.toks  N == Len(T) IN
@@ -29,8 +29,8 @@ Tiles_C16(r) ==
         /\ T[k].line = 1 + NLBefore(r.in, T[k].pos)            \* line = 1 + newlines before the offset
   /\ \A k \in 1..(N - 1) : (T[k].ty # "ERROR" /\ T[k + 1].ty # "ERROR") =>
         /\ T[k].pos + T[k].len <= T[k + 1].pos                 \* increasing, non-overlapping
-        /\ AllWS(r.in, T[k].pos + T[k].len, T[k + 1].pos)      \* nothing but white space in between
-  /\ T[1].ty # "ERROR" => AllWS(r.in, 0, T[1].pos)
+        /\ AllWS(r, T[k].pos + T[k].len, T[k + 1].pos)         \* nothing but white space in between
+  /\ T[1].ty # "ERROR" => AllWS(r, 0, T[1].pos)
   /\ T[N].ty = "EOF" => T[N].pos = Len(r.in)                   \* an error-free scan ends with EOF at the end
 
 \* ---------------- C08 ----------------
